@@ -69,6 +69,11 @@ def _amount_ctx(F, b, inner):
         rets = [st for bl in b.blocks for st in bl["s"] if st["d"]["l"] == 0 and not st["d"]["p"] and st["rv"]["r"] == "agg" and st["rv"].get("adt") == "std::result::Result"]
         oks = [st for st in rets if st["rv"].get("var") == "Ok"]
         errs = [st for st in rets if st["rv"].get("var") == "Err"]
+        whole = [st for bl in b.blocks for st in bl["s"] if st["d"]["l"] == 0 and not st["d"]["p"] and st["rv"]["r"] == "use" and op_place(st["rv"]["o"]) is not None and
+                 (root_place(b, st["rv"]["o"]) or {}).get("l") == dl and not (root_place(b, st["rv"]["o"]) or {"p": [1]})["p"]]
+        if whole and not rets:
+            # Idiom D: let r = inner(..); if let Ok(amt) = r { .. }; r   - the inner result itself is what is returned
+            return b, is_amt, True
         if oks and errs:
             unchanged = all(st["rv"]["ops"] and payload_of(st["rv"]["ops"][0], "Ok") for st in oks) and all(st["rv"]["ops"] and payload_of(st["rv"]["ops"][0], "Err") for st in errs)
             return b, is_amt, unchanged
